@@ -1053,7 +1053,7 @@ fn c11_monitor(op: &str, own: u16, trace: &[Message<'static>], script: &[Reply],
         }
     }
     let kind = &op[..3];
-    let kind = if kind == "SNP" || kind == "SNW" || kind == "SNL" || kind == "SNQ" { "SND" } else { kind };
+    let kind = if kind == "SNP" || kind == "SNW" || kind == "SNL" || kind == "SNQ" || kind == "SNF" { "SND" } else { kind };
     if kind == "CFG" || kind == "CIN" || kind == "SND" {
         let (recv_op, success, failure) = if kind == "SND" {
             (Operation::ReceivePixels, State::PixelsReceived, State::PixelsFailed)
@@ -1730,7 +1730,7 @@ fn gen_c09(ctx: &mut Ctx) {
             items = vec![SIGN_TYPES[t].to_bytes().to_vec()];
             format!("CFG.{}.{}", own, t)
         } else {
-            format!("{}.{}.{}", if slow_iter { "SNW" } else if k % 8 == 5 { "SNP" } else if k % 8 == 1 { "SNL" } else if k % 8 == 2 && fails_q { "SNQ" } else { "SND" }, own, if pages.is_empty() { "-".to_string() } else { pages.join("+") })
+            format!("{}.{}.{}", if slow_iter { "SNW" } else if k % 8 == 5 { "SNP" } else if k % 8 == 1 { "SNL" } else if k % 8 == 2 && fails_q { "SNQ" } else if k % 8 == 6 { "SNF" } else { "SND" }, own, if pages.is_empty() { "-".to_string() } else { pages.join("+") })
         };
         let fails_override = if slow_iter || (k % 8 == 2 && fails_q) { Some(0) } else { None };
         if crate::eval::snd_unconstructible(&op) {
@@ -1992,7 +1992,10 @@ fn gen_c08(ctx: &mut Ctx) {
             format!("SD.0.{}", chunk(16, 1)),
             format!("RO.{}.{}", own, rng.pick(&["RCF", "SRS"])),
         ];
-        let line = format!("CL 3 {} M {} {} {} A {} | CFG.{}.{} SND.{}.{} SHW.{}.50", a0, own, if k % 2 == 0 { "M" } else { "A" }, a2, prior.join(" "), own, t, own, pages.join("+"), own);
+        // the page list reaches send_pages as a slice / vector iterator, through a filter that drops elements, with a useless
+        // size_hint, from a queue
+        let snd = ["SND", "SNF", "SNL", "SNQ"][k % 4];
+        let line = format!("CL 3 {} M {} {} {} A {} | CFG.{}.{} {}.{}.{} SHW.{}.50", a0, own, if k % 2 == 0 { "M" } else { "A" }, a2, prior.join(" "), own, t, snd, own, pages.join("+"), own);
         let res = ctx.case(line.clone(), true, "multi-sign");
         // the target (second of three signs) ends up holding exactly the pages sent, whatever the others are doing
         let toks: Vec<&str> = res.split(" # ").next().unwrap_or("").split(' ').filter(|s| !s.is_empty()).collect();
